@@ -453,8 +453,8 @@ theorem storeStep_binv (env : Nat → Content) (b : BlockData) (s : Shred) (h : 
 /-- **The blockstore invariant is preserved by `add_shred` for every shred whatsoever, and `add_shred`
     never panics** (the `expect`s of `try_reconstruct_slice` / `try_reconstruct_block`). -/
 theorem addShred_binv (env : Nat → Content) (b : BlockData) (s : Shred) (h : BInv b) :
-    BInv (addShred env b s).1 ∧ (addShred env b s).2 ≠ .panic := by
-  unfold addShred
+    BInv (addShredCore env b s).1 ∧ (addShredCore env b s).2 ≠ .panic := by
+  unfold addShredCore
   cases hc : cacheStep b s with
   | none => exact ⟨h, by simp⟩
   | some b1 =>
@@ -469,7 +469,7 @@ theorem addShred_binv (env : Nat → Content) (b : BlockData) (s : Shred) (h : B
 
 /-- `add_shred` never changes slot and capacity -/
 theorem addShred_slot_cap (env : Nat → Content) (b : BlockData) (s : Shred) :
-    (addShred env b s).1.slot = b.slot ∧ (addShred env b s).1.cap = b.cap := by
+    (addShredCore env b s).1.slot = b.slot ∧ (addShredCore env b s).1.cap = b.cap := by
   have hrs : ∀ (b : BlockData) k, (tryReconstructSlice env b k).1.slot = b.slot ∧ (tryReconstructSlice env b k).1.cap = b.cap := by
     intro b k
     unfold tryReconstructSlice
@@ -503,7 +503,7 @@ theorem addShred_slot_cap (env : Nat → Content) (b : BlockData) (s : Shred) :
       · rename_i b2 heq2; rw [heq2] at h2; exact ⟨h2.1.trans h1.1, h2.2.trans h1.2⟩
       · rename_i b2 heq2; rw [heq2] at h2; exact ⟨h2.1.trans h1.1, h2.2.trans h1.2⟩
       · rename_i b2 info heq2; rw [heq2] at h2; exact ⟨h2.1.trans h1.1, h2.2.trans h1.2⟩
-  unfold addShred
+  unfold addShredCore
   cases hc : cacheStep b s with
   | none => exact ⟨rfl, rfl⟩
   | some b1 =>
